@@ -340,8 +340,6 @@ def classify(spec, m, objs, got, exp, err):
             kle = None
         if kle is not None and kle != se and sg <= kle:
             return "short-circuit-empty-domain"
-    if (f["union_under_not"] or f["union"] and (f["forall"] or f["exists"])) and extra:
-        return "neg-over-union"
     if qi["exists_free"] and missing and not extra:
         return "exists-dedup"
     if _exists_leaves_variable_bound(spec):
@@ -439,6 +437,9 @@ def witnesses():
                                            ["forall", "x", ["exists", "z", ["cmp", "!=", ["attr", ["var", "z"], "a"], ["attr", ["var", "x"], "a"]]]]],
                                           [["var", "y"]], [X, Y, {"name": "z", "type": "P", "dom": [0, 1], "kind": "list"}]),
         "forall-first-condition-result-only": _w(['forall', 'x', ['forall', 'x2', ['or', ['cmp', '==', ['attr', ['var', 'x'], 'a'], ['attr', ['var', 'x2'], 'a']], ['cmp', '!=', ['attr', ['var', 'y'], 'a'], ['attr', ['var', 'x2'], 'b']]]]],
+                                                  [["var", "y"]], [{'name': 'x', 'type': 'P', 'dom': [0, 0], 'kind': 'list'}, {'name': 'y', 'type': 'P', 'dom': [2, 1], 'kind': 'list'}, {'name': 'x2', 'type': 'P', 'dom': [0, 1, 2], 'kind': 'list'}],
+                                                  world=[{'cls': 'P', 'a': 0, 'b': 1, 'items': [0], 'kids': [], 'ref': 0, 'd': {'k': 0}, 'name': 'o0', 'f': '0.0', 'fs': [0, 1, 2]}, {'cls': 'Q', 'a': 1, 'b': 0, 'items': [1, 2, 0], 'kids': [], 'ref': 2, 'd': {'k': 1}, 'name': 'o1', 'f': 'nan', 'fs': [1]}, {'cls': 'Q', 'a': 0, 'b': 1, 'items': [], 'kids': [], 'ref': 2, 'd': {'k': 1}, 'name': 'o2', 'f': '0.0', 'fs': []}]),
+        "forall-candidate-with-unbound-variable": _w(['forall', 'x', ['forall', 'x2', ['or', ['cmp', '==', ['attr', ['var', 'x'], 'a'], ['attr', ['var', 'x2'], 'a']], ['cmp', '!=', ['attr', ['var', 'y'], 'a'], ['attr', ['var', 'x2'], 'b']]]]],
                                                   [["var", "y"]], [{'name': 'x', 'type': 'P', 'dom': [0, 0], 'kind': 'list'}, {'name': 'y', 'type': 'P', 'dom': [2, 1], 'kind': 'list'}, {'name': 'x2', 'type': 'P', 'dom': [0, 1, 2], 'kind': 'list'}],
                                                   world=[{'cls': 'P', 'a': 0, 'b': 1, 'items': [0], 'kids': [], 'ref': 0, 'd': {'k': 0}, 'name': 'o0', 'f': '0.0', 'fs': [0, 1, 2]}, {'cls': 'Q', 'a': 1, 'b': 0, 'items': [1, 2, 0], 'kids': [], 'ref': 2, 'd': {'k': 1}, 'name': 'o1', 'f': 'nan', 'fs': [1]}, {'cls': 'Q', 'a': 0, 'b': 1, 'items': [], 'kids': [], 'ref': 2, 'd': {'k': 1}, 'name': 'o2', 'f': '0.0', 'fs': []}]),
         "quantifier-yields-nothing-when-false": _w(["and", ["cmp", ">=", ["attr", ["var", "y"], "a"], ["lit", 0]],
